@@ -376,7 +376,7 @@ func Main(p *Plan) {
 
 func pick(r *ev.Run, quickDepth int) int {
 	if r.Thorough() {
-		return quickDepth + 2
+		return quickDepth + 3
 	}
 	return quickDepth
 }
